@@ -149,6 +149,7 @@ func Load(repo string, o LoadOpts) (*World, error) {
 		}
 		return w.Funcs[i].String() < w.Funcs[j].String()
 	})
+	w.detectRenames()
 	return w, nil
 }
 
@@ -168,7 +169,23 @@ func (w *World) obj(rel, name string) types.Object {
 	if p == nil {
 		return nil
 	}
-	return p.Types.Scope().Lookup(name)
+	if o := p.Types.Scope().Lookup(name); o != nil {
+		return o
+	}
+	// a renamed object that is taken as the recorded name (rename.go)
+	for tn, old := range oldTypeName {
+		if old == name && tn.Pkg() == p.Types {
+			return tn
+		}
+	}
+	for fo, old := range oldFuncName {
+		if old == name && fo.Pkg() == p.Types {
+			if sig, ok := fo.Type().(*types.Signature); ok && sig.Recv() == nil {
+				return fo
+			}
+		}
+	}
+	return nil
 }
 
 // named returns the *types.Named for a package-level type.
@@ -190,7 +207,7 @@ func (w *World) fn(rel, name string) *ssa.Function {
 			return nil
 		}
 		for k := 0; k < n.NumMethods(); k++ {
-			if n.Method(k).Name() == name[i+1:] {
+			if funcObjName(n.Method(k)) == name[i+1:] {
 				return w.Prog.FuncValue(n.Method(k))
 			}
 		}
@@ -214,7 +231,7 @@ func (w *World) field(rel, typ, fld string) *types.Var {
 		return nil
 	}
 	for i := 0; i < st.NumFields(); i++ {
-		if st.Field(i).Name() == fld {
+		if vname(st.Field(i)) == fld {
 			return st.Field(i)
 		}
 	}
@@ -287,6 +304,9 @@ func relName(f *ssa.Function) string {
 	s = strings.ReplaceAll(s, modPath+"/", "")
 	s = strings.ReplaceAll(s, modPath+".", "dials.")
 	s = strings.ReplaceAll(s, modPath, "dials")
+	if o, ok := origin(f).Object().(*types.Func); ok && o != nil && f.Parent() == nil {
+		s = unrename(s, o)
+	}
 	return s
 }
 
